@@ -142,6 +142,7 @@ pub struct ClassificationResult {
 /// per-connection consecutive-tick streak of an active delay signal so
 /// `HighRtt`/`QueueBuilding` only mark weak once sustained.
 #[derive(Default)]
+#[cfg_attr(feature = "verif-hooks", derive(Clone))]
 pub struct WeakLinkFilter {
     prev_weak: HashMap<u64, bool>,
     delay_weak_streak: HashMap<u64, u32>,
@@ -484,5 +485,36 @@ mod tests {
         let result = filter.classify(&[]);
         assert_eq!(result.selected_delay_ms, 0);
         assert!(result.per_link.is_empty());
+    }
+}
+
+/// Read-only copy of the filter's private hysteresis memory for the
+/// verification harness: `(conn_id, prev_weak, delay_weak_streak, weak_streak,
+/// probation_ticks)` sorted by `conn_id`; a missing map entry reads as
+/// `false` / `0` (which is how `classify` itself reads it).
+#[cfg(feature = "verif-hooks")]
+impl WeakLinkFilter {
+    pub fn verif_private(&self) -> Vec<(u64, bool, u32, u32, u32)> {
+        let mut ids: Vec<u64> = self
+            .prev_weak
+            .keys()
+            .chain(self.delay_weak_streak.keys())
+            .chain(self.weak_streak.keys())
+            .chain(self.probation_ticks.keys())
+            .copied()
+            .collect();
+        ids.sort_unstable();
+        ids.dedup();
+        ids.into_iter()
+            .map(|id| {
+                (
+                    id,
+                    self.prev_weak.get(&id).copied().unwrap_or(false),
+                    self.delay_weak_streak.get(&id).copied().unwrap_or(0),
+                    self.weak_streak.get(&id).copied().unwrap_or(0),
+                    self.probation_ticks.get(&id).copied().unwrap_or(0),
+                )
+            })
+            .collect()
     }
 }
